@@ -33,6 +33,9 @@ type C16Box struct {
 
 type C16Case struct {
 	Boxes []C16Box `json:"boxes"` // children of body
+	// backgrounds of the page box (colour 250) and of the root element, which becomes the canvas background (251)
+	PageBG bool `json:"page_bg,omitempty"`
+	RootBG bool `json:"root_bg,omitempty"`
 }
 
 func c16GenBox(t *rapid.T, depth int, budget *int, many bool) C16Box {
@@ -76,6 +79,9 @@ func c16GenBox(t *rapid.T, depth int, budget *int, many bool) C16Box {
 
 func c16Gen(t *rapid.T, tier Tier) interface{} {
 	c := &C16Case{}
+	if rapid.IntRange(0, 3).Draw(t, "pagedeco") == 0 {
+		c.PageBG, c.RootBG = rapid.Bool().Draw(t, "pagebg"), rapid.Bool().Draw(t, "rootbg")
+	}
 	if rapid.IntRange(0, 7).Draw(t, "many") == 0 {
 		// a wide context: many positioned siblings with few distinct z-index values
 		n := rapid.IntRange(10, 28).Draw(t, "nmany")
@@ -102,7 +108,14 @@ type c16Node struct {
 func c16HTML(c *C16Case) (string, []*c16Node) {
 	var nodes []*c16Node
 	var sb strings.Builder
-	sb.WriteString(`<!DOCTYPE html><html><head><style>@page{size:1000px 2000px;margin:0} html,body{margin:0;padding:0;display:block} body{font:10px/1 Ahem;width:400px} div{margin:0 0 -6px 3px}</style></head><body>`)
+	extra := ""
+	if c.PageBG {
+		extra += "@page{background:rgb(250,10,0)}"
+	}
+	if c.RootBG {
+		extra += "html{background:rgb(251,10,0)}"
+	}
+	sb.WriteString(`<!DOCTYPE html><html><head><style>@page{size:1000px 2000px;margin:0} html,body{margin:0;padding:0;display:block} body{font:10px/1 Ahem;width:400px} div{margin:0 0 -6px 3px}` + extra + `</style></head><body>`)
 	var walk func(b *C16Box, parent *c16Node) *c16Node
 	walk = func(b *C16Box, parent *c16Node) *c16Node {
 		n := &c16Node{id: len(nodes) + 1, b: b, parent: parent}
@@ -424,7 +437,7 @@ func c16Str(es []c16Event) string {
 func c16Check(ci interface{}) Verdict {
 	c := ci.(*C16Case)
 	html, nodes := c16HTML(c)
-	if len(nodes) > 250 {
+	if len(nodes) > 249 {
 		return Verdict{Excluded: "too-many-boxes-for-the-colour-code"}
 	}
 	r, err := wr.Render(html, wr.Opts{Engine: "pango", Zoom: 1})
@@ -440,7 +453,15 @@ func c16Check(ci interface{}) Verdict {
 			tops = append(tops, n)
 		}
 	}
+	// the page box is the outermost context: its own background first, then the canvas background taken
+	// from the root element, then the contexts of the document
 	var want []c16Event
+	if c.PageBG {
+		want = append(want, c16Event{250, "bg"})
+	}
+	if c.RootBG {
+		want = append(want, c16Event{251, "bg"})
+	}
 	c16Paint(nil, tops, true, &want)
 	// consecutive duplicates are merged in the observation: do the same
 	var wantM []c16Event
